@@ -80,7 +80,9 @@ func ReadMountProfile(reader io.Reader) (*MountProfile, error) {
 	scanner := bufio.NewScanner(reader)
 	for scanner.Scan() {
 		s := scanner.Text()
-		s = strings.TrimSpace(s)
+		// Only blanks separate fields (see ParseMountEntry); other white space
+		// characters may legitimately start or end a field.
+		s = strings.Trim(s, " \t")
 		// Skip lines that only contain a comment, that is, those that start
 		// with the '#' character (ignoring leading spaces). This specifically
 		// allows us to parse '#' inside individual fields, which the fstab(5)
